@@ -176,6 +176,20 @@ class TermEncoder:
         datatype_id = None
         term_rows: tuple[()] | tuple[jelly.RdfStreamRow] = ()
 
+        if language and datatype:
+            # Jelly carries either a language tag or a datatype. The tag implies
+            # rdf:langString; any other datatype cannot be written next to it.
+            if datatype not in (
+                options.LANG_STRING_DATATYPE_IRI,
+                options.STRING_DATATYPE_IRI,
+            ):
+                msg = (
+                    f"can't encode literal with both language tag {language} "
+                    f"and datatype {datatype}"
+                )
+                raise JellyConformanceError(msg)
+            datatype = None
+
         if datatype and datatype != options.STRING_DATATYPE_IRI:
             if self.datatypes.lookup.max_size == 0:
                 msg = (
